@@ -12,6 +12,14 @@ TRUST = ('Trusted base: rustc nightly THIR/MIR for this source (same cfgs as the
          'the evidence file.')
 
 CHECKS = {
+    'C15': {
+        'technique': 're-key census driven by the typed container classification, guard entailment/equivalence for every effect of the registered NICK branch, value-identity of the moved User, announcement provenance (binding order of the old source)',
+        'level': ('Decides that an accepted NICK re-keys every nick-keyed live container (a container added later without a re-key is '
+                  'reported), moves the same User value unchanged apart from its source string, records WHOWAS, renames in every own '
+                  'channel with the rank record, announces the original message from the old source to all users, touches no counter, '
+                  'and that a taken nick yields 433 and no effect.'),
+        'note': TRUST + ' NICK syntax validation is decided in C13.',
+    },
     'C04': {
         'technique': 'typed who-may-write census on Channel.users / User.channels, caller census of the Channel mutators, pairing by path-condition equivalence under one write guard, sibling agreement over the rank methods, PART emission conditions, reader provenance',
         'level': ('Decides structurally that the membership relation is written only by the Channel mutators and the two User.channels '
